@@ -38,13 +38,14 @@ theorem nData_of_shape_a {t : Option Bytes} {ta : List Ev}
 
 /-- **C08 (transmission bounds).** For every peer and every state: an exchange transmits its request at
     most `retries` times; if it returns responses it transmitted at least once (for `retries ≥ 1`);
-    if it fails with a timeout after transmitting at all, it transmitted exactly `retries` times and
-    the connection has been dropped.  (`tx` = data packets the exchange appended to the write log.) -/
+    if it fails with a timeout after transmitting at all, the connection has been dropped and — unless
+    the caller cancelled the call — it transmitted exactly `retries` times.
+    (`tx` = data packets the exchange appended to the write log.) -/
 theorem tx_bounds (p : Params) (rx : Reactions) (s s' : S) (frame : Bytes) (retries : Nat) (r : R (List Bytes))
     (h : lanSend p rx s frame retries = (r, s')) :
     ∃ tr, evsOf s' = evsOf s ++ tr ∧ nData tr ≤ retries ∧
       (∀ got, r = .ok got → retries = 0 ∨ 1 ≤ nData tr) ∧
-      (r = .error .timeout → nData tr ≠ 0 → nData tr = retries ∧ s'.l.conn = none) ∧
+      (r = .error .timeout → nData tr ≠ 0 → s'.l.conn = none ∧ (s.w.cancelAt = none → nData tr = retries)) ∧
       (∀ e ∈ tr, isData e = true → DataOf frame e) := by
   obtain ⟨s1, s2, tc, ta, te, g1, g2, g3, k1, k2, k3, k4, _, _, _, k8, k9⟩ := lanSend_tr h
   have hz1 := nData_of_shape_c k1
@@ -55,8 +56,8 @@ theorem tx_bounds (p : Params) (rx : Reactions) (s s' : S) (frame : Bytes) (retr
   · intro hr hne
     rw [hn] at hne ⊢
     have hte : te ≠ [] := by intro h0; rw [h0] at hne; exact hne rfl
-    obtain ⟨h1, h2⟩ := k8 hr hte
-    refine ⟨h1, ?_⟩
+    obtain ⟨h2, h1⟩ := k8 hr hte
+    refine ⟨?_, h1⟩
     cases hc : s'.l.conn with
     | none => rfl
     | some c => simp [coreOf, hc] at h2
@@ -124,7 +125,7 @@ theorem no_response_reported_offline (r r' : Run) (h : ∀ reply ∈ r.replies, 
     timeout with a packet that decodes to `f`, the exchange returns exactly `[f]` after a single
     transmission; no user intervention. -/
 theorem recovery_v2 (p : Params) (rx : Reactions) (s : S) (frame : Bytes) (n : Nat) (cs : List ConnOutcome)
-    (hver : s.l.version ≠ 3) (hal : connAlive s = false) (hquiet : s.w.pending = [])
+    (hver : s.l.version ≠ 3) (hal : connAlive s = false) (hquiet : s.w.pending = []) (hnc : s.w.cancelAt = none)
     (hconn : s.w.connects = .ok :: cs)
     (d : Nat) (b f : Bytes) (hrx : rx (s.w.nConn + 1) 0 = [(d, .data b)]) (hd : d ≤ p.readTimeout)
     (hdec : packetDecode b = .ok f) :
@@ -141,7 +142,9 @@ theorem recovery_v2 (p : Params) (rx : Reactions) (s : S) (frame : Bytes) (n : N
   have hv : c1.core.v3 = false := by simp [c1, hver]
   have hready : Ready s1 c1 := ⟨hc1, rfl, rfl, by
       show (opDisconnect s).w.pending = []
-      rw [pending_opDisconnect]; exact hquiet, by rw [hv]; intro h; cases h⟩
+      rw [pending_opDisconnect]; exact hquiet, (by rw [hv]; intro h; cases h), (by
+      show (opDisconnect s).w.cancelAt = none
+      rw [cancelAt_opDisconnect]; exact hnc)⟩
   have hpre : readAvailable (queueLen s1 + 1) s1 [] = (.ok [], s1) := by
     simp [readAvailable, queueHead, hc1, c1]
   obtain ⟨s2, c2, hloop, hn2, hc2, hq2, _⟩ := sendLoop_answered_at (p := p) (rx := rx) (frame := frame) 0 (n + 1) s1 c1 []
@@ -201,6 +204,10 @@ theorem failed_read_drops_connection (p : Params) (rx : Reactions) (frame : Byte
         · simp only [Prod.mk.injEq] at h
           obtain ⟨_, rfl⟩ := h
           exact .inl (conn_opDisconnect s2)
+      · rename_i s2 ha
+        simp only [Prod.mk.injEq] at h
+        obtain ⟨_, rfl⟩ := h
+        exact .inl (conn_opDisconnect s2)
       · rename_i raw s2 ha
         obtain ⟨hq2, hlen⟩ := qok_awaitQueue _ hq1 ha
         split at h
@@ -223,6 +230,7 @@ theorem failed_read_drops_connection (p : Params) (rx : Reactions) (frame : Byte
     exactly the peer's response after a single data transmission. -/
 theorem recovery_v3 {p : Params} {rx : Reactions} {s : S} (frame : Bytes) (n : Nat) (cs : List ConnOutcome)
     (tok key : Bytes) (hver : s.l.version = 3) (hal : connAlive s = false) (hquiet : s.w.pending = [])
+    (hnc : s.w.cancelAt = none)
     (hconn : s.w.connects = .ok :: cs) (hexp : FreshExpiryOk s)
     (htok : s.l.token = some tok) (hkey : s.l.key = some key)
     (htok' : tok.isEmpty = false ∧ tok.length < 65536) (hkey' : key.isEmpty = false)
@@ -233,7 +241,7 @@ theorem recovery_v3 {p : Params} {rx : Reactions} {s : S} (frame : Bytes) (n : N
     (hparse1 : parseLoop b1 = ([pkt], [])) (hdec : decodeWith true (some lk) pkt = .ok f) :
     ∃ s', lanSend p rx s frame (n + 1) = (.ok [f], s') ∧ nData (evsOf s') = nData (evsOf s) + 1 ∧
       ∃ tr, evsOf s' = evsOf s ++ tr ∧ .accept (s.w.nConn + 1) lk ∈ tr :=
-  lanSend_recovers_v3 frame n cs tok key hver hal hquiet hconn hexp htok hkey htok' hkey' d0 b0 reply payload lk
+  lanSend_recovers_v3 frame n cs tok key hver hal hquiet hnc hconn hexp htok hkey htok' hkey' d0 b0 reply payload lk
     hrx0 hd0 hparse0 hproc hlk d1 b1 pkt f hrx1 hd1 hparse1 hdec
 
 theorem handshakeReply_wf (key nonce : Bytes) (hn : nonce.length = 32) (ctr : Nat) :
@@ -255,7 +263,7 @@ theorem handshakeReply_wf (key nonce : Bytes) (hn : nonce.length = 32) (ctr : Na
     frame.  (Composition of C02, C04, C05, C06 with the Session model.) -/
 theorem recovery_v3_honest_device {p : Params} {rx : Reactions} {s : S} (frame : Bytes) (n : Nat) (cs : List ConnOutcome)
     (tok key nonce : Bytes) (hver : s.l.version = 3) (hal : connAlive s = false) (hquiet : s.w.pending = [])
-    (hconn : s.w.connects = .ok :: cs) (hexp : FreshExpiryOk s)
+    (hnc : s.w.cancelAt = none) (hconn : s.w.connects = .ok :: cs) (hexp : FreshExpiryOk s)
     (htok : s.l.token = some tok) (hkey : s.l.key = some key)
     (htok' : tok.isEmpty = false ∧ tok.length < 65536) (hk32 : key.length = 32) (hn32 : nonce.length = 32)
     (d0 ctr0 : Nat) (hd0 : d0 ≤ p.readTimeout)
@@ -291,13 +299,25 @@ theorem recovery_v3_honest_device {p : Params} {rx : Reactions} {s : S} (frame :
     rw [C05.v3_decode_spec_response _ _ padBytes ctr1 hpl hsz]
     simp only
     exact C02.v2_decode_spec_encode resp ts filler id hts hfl hfit
-  obtain ⟨s', h1, h2, _⟩ := recovery_v3 (p := p) (rx := rx) (s := s) frame n cs tok key hver hal hquiet hconn hexp htok hkey htok' hkne
+  obtain ⟨s', h1, h2, _⟩ := recovery_v3 (p := p) (rx := rx) (s := s) frame n cs tok key hver hal hquiet hnc hconn hexp htok hkey htok' hkne
     d0 _ _ payload _ hrx0 hd0 hparse0 hproc hlk d1 _ _ resp hrx1 hd1 hparse1 hdec
   exact ⟨s', h1, h2⟩
 
+/-- **C08 (cancellation).** If the caller cancels a `send` while it waits for the response (the read is
+    cancelled), the call ends as a timeout and the connection has been dropped — so the next exchange
+    reconnects (and, on V3, re-authenticates: `C07.lifetime_forces_new_connection`) -/
+theorem cancelled_read_drops_connection (p : Params) (rx : Reactions) (frame : Bytes) (n : Nat) (s s1 s2 : S)
+    (acc : List Bytes) (hw : opWrite rx s frame = .ok s1)
+    (ha : awaitQueue (s1.w.pending.length + 1) s1 (s1.w.now + p.readTimeout) = (.cancelled, s2)) :
+    sendLoop p rx frame (n + 1) s acc = (.error .timeout, opDisconnect s2) ∧ (opDisconnect s2).l.conn = none := by
+  refine ⟨?_, conn_opDisconnect s2⟩
+  unfold sendLoop
+  rw [hw]; simp only
+  rw [ha]
+
 /-! non-vacuity: a ready state exists and a one-packet V2 answer is a `segQueue` of one item -/
 example : Ready { l := { conn := some { core := { cid := 1, v3 := false } } } } { core := { cid := 1, v3 := false } } :=
-  ⟨rfl, rfl, rfl, rfl, by intro h; cases h⟩
+  ⟨rfl, rfl, rfl, rfl, (by intro h; cases h), rfl⟩
 example : segQueue false [] [1, 2, 3] = [[1, 2, 3]] := rfl
 
 end Msmart.Props.C08
